@@ -22,12 +22,14 @@ DATE_PARTS = ["%Y-%m-%d", "%d/%m/%Y", "%m/%d/%Y", "%d.%m.%y", "%d %B %Y", "%B %d
 TIME_PARTS = ["", "%H:%M", "%H:%M:%S", "%I:%M %p", "%H:%M:%S.%f", "%I:%M:%S %p"]
 FORMATS = [d + (" " + t if t else "") for d in DATE_PARTS for t in TIME_PARTS if not (t and d in ("%Y", "%B", "%B %Y", "%m/%Y", "%b %y"))]
 FORMATS += [t for t in TIME_PARTS if t]          # time-only formats: day, month and year all come from preferences / the clock
-NOW = [datetime(2024, 3, 31, 9, 8, 7), datetime(2023, 2, 28, 23, 59, 59)]
+NOW = [datetime(2024, 3, 31, 9, 8, 7), datetime(2023, 2, 28, 23, 59, 59), datetime(2024, 2, 29, 12, 0, 0), datetime(2023, 4, 30, 0, 0, 1)]
 # year-less formats x every day of the (virtual) current year, leap and non-leap
 YEARLESS = ["%j", "%j %H:%M", "%A %j", "%H:%M %j", "%d %B", "%b %d %H:%M", "%d/%m", "%m-%d %I:%M %p", "%A, %d %B"]
 NOW_YL = [datetime(2024, 3, 31, 9, 8, 7), datetime(2023, 2, 28, 23, 59, 59), datetime(2023, 12, 31, 0, 0, 0), datetime(2100, 6, 15, 12, 0, 0),
           datetime(2000, 1, 1, 0, 0, 0)]
-PREFS = [("current", "current"), ("first", "first"), ("last", "last"), ("first", "last"), ("last", "first")]
+# (PREFER_DAY_OF_MONTH, PREFER_MONTH_OF_YEAR): the first five keep their historical indices, the last four complete the 3 x 3 product
+PREFS = [("current", "current"), ("first", "first"), ("last", "last"), ("first", "last"), ("last", "first"),
+         ("last", "current"), ("first", "current"), ("current", "first"), ("current", "last")]
 
 
 def render(fmt, dt, names=None):
@@ -110,6 +112,10 @@ def spaces(tier, seed):
     T = tier == "thorough"
     sp = [
         Product("core", {"f": range(len(FORMATS)), "dt": range(len(CORE)), "pref": range(len(PREFS)), "now": [0, 1]}),
+        Product("partial-formats-all-preferences", {"f": [i for i, f in enumerate(FORMATS) if not ("%d" in f or "%j" in f) or not any(x in f for x in ("%m", "%b", "%B", "%j"))],
+                                                    "dt": [i for i, d in enumerate(CORE) if d.year in (1999, 2000, 2024) and (d.hour, d.microsecond) in ((0, 0), (23, 999999))],
+                                                    "pref": range(len(PREFS)), "now": range(len(NOW))},
+                note="formats that lack the day and/or the month x all nine preference pairs x current dates on a 31st, 28 and 29 February, a 30th"),
         Product("sweep-day", {"f": [FORMATS.index(x) for x in ("%Y-%m-%d", "%d.%m.%y", "%A, %d %B %Y %I:%M %p", "%Y-%j", "%y%m%d", "%m/%d/%Y %H:%M:%S.%f",
                                                                "%a %d %b %Y %I:%M:%S %p", "%B %d, %Y", "%Y%m%d %H:%M")],
                               "ord": range(cal.ordinal(1900, 1, 1), cal.ordinal(2100, 12, 31) + 1), "pref": [0], "now": [0]},
